@@ -481,6 +481,8 @@ class World(object):
         if k == "tick":
             return self._tick(ev, float(ev[1]), snap)
         if k == "restart":
+            if len(ev) > 1 and isinstance(ev[1], dict):
+                self.cfg.update(ev[1])          # the operator restarts the service with different options
             return [self._restart(ev, snap)]
         if k == "splitK":
             # C11, world K: all clients vanish, the server object lives on; the next periodic sweep fires
@@ -494,6 +496,16 @@ class World(object):
             nt = self.next_timer()
             self.reactor.rightNow = nt
             return [self._restart(ev, snap)]
+        if k == "inject_orphan_mailbox":
+            # what a crash between the two commits of a first claim leaves behind: a mailbox row without sides
+            r = self._begin(ev, "inject", snap)
+            q = self.quiet
+            self.quiet = True
+            self.channel_db.execute("INSERT INTO mailboxes (app_id, id, updated, for_nameplate) VALUES (?,?,?,?)",
+                                    (ev[1], ev[2], self.now(), True))
+            self.channel_db.commit()
+            self.quiet = q
+            return [self._end(r, snap)]
         if k == "mark":
             return []           # pseudo-event: end of a seeded prefix (bounds that count events restart here)
         if k == "choice":
